@@ -10,12 +10,58 @@ theorem floatTok_isExpr (t : String) (f : Bool) : IsExpr [floatTok t f] := by
   · exact IsExpr.name t
   · exact IsExpr.num t
 
+theorem unaryToks_isExpr (c : DCfg) (o : UOp) (t : String) (f : Bool) (h : (c.notSpaced || o != .not) = true) :
+    IsExpr (unaryToks c o t f) := by
+  cases o <;> simp only [unaryToks]
+  case not =>
+    cases hn : c.notSpaced
+    · simp [hn] at h
+    · simp only [↓reduceIte]; exact IsExpr.unary _ _ (floatTok_isExpr _ _)
+  all_goals exact IsExpr.unary _ _ (floatTok_isExpr _ _)
+
+theorem unaryToks_lexOk (c : DCfg) (o : UOp) (t : String) (f : Bool) (h : (c.notSpaced || o != .not) = true) :
+    LexOk (unaryToks c o t f) = true := by
+  cases o <;> simp only [unaryToks]
+  case not =>
+    cases hn : c.notSpaced
+    · simp [hn] at h
+    · cases f <;> rfl
+  all_goals (cases f <;> rfl)
+
+theorem unaryToks_closed (c : DCfg) (o : UOp) (t : String) (h : (c.notSpaced || o != .not) = true) :
+    Closed (unaryToks c o t true) = true := by
+  cases o <;> simp only [unaryToks]
+  case not =>
+    cases hn : c.notSpaced
+    · simp [hn] at h
+    · rfl
+  all_goals rfl
+
+theorem render_float (c : DCfg) (t : String) (f : Bool) (toks : List DTok) (h : render c (.float t f) = some toks) :
+    floatOk c f = true ∧ toks = [floatTok t f] := by
+  simp only [render] at h
+  split at h
+  · rename_i hf; simp at h; exact ⟨hf, h.symm⟩
+  · cases h
+
+theorem render_unary_float (c : DCfg) (o : UOp) (t : String) (f : Bool) (toks : List DTok)
+    (h : render c (.unary o (.float t f)) = some toks) : floatOk c f = true ∧ toks = unaryToks c o t f := by
+  simp only [render] at h
+  split at h
+  · rename_i hf; simp at h; exact ⟨hf, h.symm⟩
+  · cases h
+
+/-- a rendered float is finite when the tree drops the others, or by hypothesis -/
+theorem finite_of (c : DCfg) (f : Bool) (hok : floatOk c f = true) (hf : (c.nonFiniteEllipsis || f) = true) : f = true := by
+  cases f <;> cases hn : c.nonFiniteEllipsis <;> simp_all [floatOk]
+
 mutual
-theorem render_isExpr : ∀ (e : DExpr) (toks : List DTok), render e = some toks → e.good = true → IsExpr toks
-  | .const c, toks, h, _ => by simp [render] at h; subst h; exact IsExpr.kw c
+theorem render_isExpr (c : DCfg) : ∀ (e : DExpr) (toks : List DTok), render c e = some toks → e.good c = true → IsExpr toks
+  | .const k0, toks, h, _ => by simp [render] at h; subst h; exact IsExpr.kw k0
   | .name _, _, h, _ => by simp [render] at h
   | .int n, toks, h, _ => by simp [render] at h; subst h; exact IsExpr.num _
-  | .float t f, toks, h, _ => by simp [render] at h; subst h; exact floatTok_isExpr t f
+  | .float t f, toks, h, _ => by
+      obtain ⟨_, rfl⟩ := render_float c t f toks h; exact floatTok_isExpr t f
   | .complex, _, h, _ => by simp [render] at h
   | .complexSum, _, h, _ => by simp [render] at h
   | .str i, toks, h, _ => by simp [render] at h; subst h; exact IsExpr.str i
@@ -23,15 +69,14 @@ theorem render_isExpr : ∀ (e : DExpr) (toks : List DTok), render e = some toks
       simp [render] at h; subst h
       exact IsExpr.bytes _ (by simpa [DExpr.good] using hg)
   | .unary o e, toks, h, hg => by
-      simp only [DExpr.good, Bool.and_eq_true, bne_iff_ne, ne_eq] at hg
-      have ho : o ≠ .not := hg.1
+      simp only [DExpr.good, Bool.and_eq_true] at hg
       cases e with
       | int n =>
         simp only [render, Option.some.injEq] at h; subst h
-        cases o <;> first | exact absurd rfl ho | exact IsExpr.unary _ _ (by decide) (floatTok_isExpr _ _)
+        exact unaryToks_isExpr c o _ _ hg.1
       | float t f =>
-        simp only [render, Option.some.injEq] at h; subst h
-        cases o <;> first | exact absurd rfl ho | exact IsExpr.unary _ _ (by decide) (floatTok_isExpr _ _)
+        obtain ⟨_, rfl⟩ := render_unary_float c o t f toks h
+        exact unaryToks_isExpr c o _ _ hg.1
       | _ => simp [render] at h
   | .tuple xs, toks, h, hg => by
       cases xs with
@@ -41,64 +86,64 @@ theorem render_isExpr : ∀ (e : DExpr) (toks : List DTok), render e = some toks
         | nil =>
           simp only [render, Option.map_eq_some_iff] at h
           obtain ⟨t, ht, rfl⟩ := h
-          have hx : x.good = true := by simp [DExpr.good, DList.good] at hg; exact hg
-          exact IsExpr.tuple1 t (render_isExpr x t ht hx)
+          have hx : x.good c = true := by simp [DExpr.good, DList.good] at hg; exact hg
+          exact IsExpr.tuple1 t (render_isExpr c x t ht hx)
         | cons y r' =>
           simp only [render, Option.map_eq_some_iff] at h
           obtain ⟨t, ht, rfl⟩ := h
-          exact IsExpr.paren t (renderList_isSeq (.cons x (.cons y r')) t ht (by simp) (by simpa [DExpr.good] using hg))
+          exact IsExpr.paren t (renderList_isSeq c (.cons x (.cons y r')) t ht (by simp) (by simpa [DExpr.good] using hg))
   | .list xs, toks, h, hg => by
       cases xs with
       | nil => simp [render] at h; subst h; exact IsExpr.list0
       | cons x r =>
         simp only [render, Option.map_eq_some_iff] at h
         obtain ⟨t, ht, rfl⟩ := h
-        exact IsExpr.list t (renderList_isSeq (.cons x r) t ht (by simp) (by simpa [DExpr.good] using hg))
+        exact IsExpr.list t (renderList_isSeq c (.cons x r) t ht (by simp) (by simpa [DExpr.good] using hg))
   | .set xs, toks, h, hg => by
       cases xs with
       | nil => simp [render] at h
       | cons x r =>
         simp only [render, Option.map_eq_some_iff] at h
         obtain ⟨t, ht, rfl⟩ := h
-        exact IsExpr.set t (renderList_isSeq (.cons x r) t ht (by simp) (by simpa [DExpr.good] using hg))
+        exact IsExpr.set t (renderList_isSeq c (.cons x r) t ht (by simp) (by simpa [DExpr.good] using hg))
   | .dict kvs, toks, h, hg => by
       cases kvs with
       | nil => simp [render] at h; subst h; exact IsExpr.dict0
       | cons k v r =>
         simp only [render, Option.map_eq_some_iff] at h
         obtain ⟨t, ht, rfl⟩ := h
-        exact IsExpr.dict t (renderPairs_isKVs (.cons k v r) t ht (by simp) (by simpa [DExpr.good] using hg))
+        exact IsExpr.dict t (renderPairs_isKVs c (.cons k v r) t ht (by simp) (by simpa [DExpr.good] using hg))
       | spread v r => simp [render, renderPairs] at h
   | .other, _, h, _ => by simp [render] at h
-theorem renderList_isSeq : ∀ (xs : DList) (toks : List DTok), renderList xs = some toks → xs ≠ .nil →
-    xs.good = true → IsSeq toks
+theorem renderList_isSeq (c : DCfg) : ∀ (xs : DList) (toks : List DTok), renderList c xs = some toks → xs ≠ .nil →
+    xs.good c = true → IsSeq toks
   | .nil, _, _, hne, _ => absurd rfl hne
   | .cons x .nil, toks, h, _, hg => by
       simp only [renderList] at h
-      have hx : x.good = true := by simp [DList.good] at hg; exact hg
-      exact IsSeq.one toks (render_isExpr x toks h hx)
+      have hx : x.good c = true := by simp [DList.good] at hg; exact hg
+      exact IsSeq.one toks (render_isExpr c x toks h hx)
   | .cons x (.cons y r), toks, h, _, hg => by
       simp only [renderList, Option.bind_eq_some_iff, Option.map_eq_some_iff] at h
       obtain ⟨t, ht, ts, hts, rfl⟩ := h
       simp only [DList.good, Bool.and_eq_true] at hg
-      exact IsSeq.cons t ts (render_isExpr x t ht hg.1)
-        (renderList_isSeq (.cons y r) ts hts (by simp) (by simp [DList.good, hg.2]))
-theorem renderPairs_isKVs : ∀ (kvs : DPairs) (toks : List DTok), renderPairs kvs = some toks → kvs ≠ .nil →
-    kvs.good = true → IsKVs toks
+      exact IsSeq.cons t ts (render_isExpr c x t ht hg.1)
+        (renderList_isSeq c (.cons y r) ts hts (by simp) (by simp [DList.good, hg.2]))
+theorem renderPairs_isKVs (c : DCfg) : ∀ (kvs : DPairs) (toks : List DTok), renderPairs c kvs = some toks → kvs ≠ .nil →
+    kvs.good c = true → IsKVs toks
   | .nil, _, _, hne, _ => absurd rfl hne
   | .spread _ _, _, h, _, _ => by simp [renderPairs] at h
   | .cons k v .nil, toks, h, _, hg => by
       simp only [renderPairs, Option.bind_eq_some_iff, Option.map_eq_some_iff] at h
       obtain ⟨tk, htk, tv, htv, rfl⟩ := h
       simp only [DPairs.good, Bool.and_eq_true] at hg
-      exact IsKVs.one tk tv (render_isExpr k tk htk hg.1.1) (render_isExpr v tv htv hg.1.2)
+      exact IsKVs.one tk tv (render_isExpr c k tk htk hg.1.1) (render_isExpr c v tv htv hg.1.2)
   | .cons k v (.cons k2 v2 r), toks, h, _, hg => by
       simp only [renderPairs, Option.bind_eq_some_iff, Option.map_eq_some_iff] at h
       obtain ⟨tk, htk, tv, htv, ts, hts, rfl⟩ := h
       simp only [DPairs.good, Bool.and_eq_true] at hg
-      have := renderPairs_isKVs (.cons k2 v2 r) ts hts (by simp) (by simp [DPairs.good, hg.2])
+      have := renderPairs_isKVs c (.cons k2 v2 r) ts hts (by simp) (by simp [DPairs.good, hg.2])
       have e : tk ++ DTok.colon :: tv ++ DTok.comma :: ts = tk ++ DTok.colon :: (tv ++ DTok.comma :: ts) := by simp
-      exact IsKVs.cons tk tv ts (render_isExpr k tk htk hg.1.1) (render_isExpr v tv htv hg.1.2) this
+      exact IsKVs.cons tk tv ts (render_isExpr c k tk htk hg.1.1) (render_isExpr c v tv htv hg.1.2) this
   | .cons k v (.spread v2 r), toks, h, _, _ => by
       simp [renderPairs] at h
 end
@@ -110,28 +155,30 @@ theorem closed_cons (t : DTok) (a : List DTok) : Closed (t :: a) = (Closed [t] &
   simp [Closed]
 
 mutual
-theorem render_closed : ∀ (e : DExpr) (toks : List DTok), render e = some toks → e.good = true →
-    e.finite = true → Closed toks = true
-  | .const c, toks, h, _, _ => by simp [render] at h; subst h; rfl
+theorem render_closed (c : DCfg) : ∀ (e : DExpr) (toks : List DTok), render c e = some toks → e.good c = true →
+    e.finite c = true → Closed toks = true
+  | .const k0, toks, h, _, _ => by simp [render] at h; subst h; rfl
   | .name _, _, h, _, _ => by simp [render] at h
   | .int n, toks, h, _, _ => by simp [render] at h; subst h; rfl
   | .float t f, toks, h, _, hf => by
-      simp [render] at h; subst h; simp only [DExpr.finite] at hf; subst hf; rfl
+      obtain ⟨hok, rfl⟩ := render_float c t f toks h
+      simp only [DExpr.finite] at hf
+      have := finite_of c f hok hf; subst this; rfl
   | .complex, _, h, _, _ => by simp [render] at h
   | .complexSum, _, h, _, _ => by simp [render] at h
   | .str i, toks, h, _, _ => by simp [render] at h; subst h; rfl
   | .bytes b, toks, h, _, _ => by simp [render] at h; subst h; rfl
   | .unary o e, toks, h, hg, hf => by
-      simp only [DExpr.good, Bool.and_eq_true, bne_iff_ne, ne_eq] at hg
-      have ho : o ≠ .not := hg.1
+      simp only [DExpr.good, Bool.and_eq_true] at hg
       cases e with
       | int n =>
         simp only [render, Option.some.injEq] at h; subst h
-        cases o <;> first | exact absurd rfl ho | rfl
+        exact unaryToks_closed c o _ hg.1
       | float t f =>
-        simp only [render, Option.some.injEq] at h; subst h
-        simp only [DExpr.finite] at hf; subst hf
-        cases o <;> first | exact absurd rfl ho | rfl
+        obtain ⟨hok, rfl⟩ := render_unary_float c o t f toks h
+        simp only [DExpr.finite] at hf
+        have := finite_of c f hok hf; subst this
+        exact unaryToks_closed c o _ hg.1
       | _ => simp [render] at h
   | .tuple xs, toks, h, hg, hf => by
       cases xs with
@@ -141,13 +188,13 @@ theorem render_closed : ∀ (e : DExpr) (toks : List DTok), render e = some toks
         | nil =>
           simp only [render, Option.map_eq_some_iff] at h
           obtain ⟨t, ht, rfl⟩ := h
-          have hx : x.good = true := by simp [DExpr.good, DList.good] at hg; exact hg
-          have hxf : x.finite = true := by simp [DExpr.finite, DList.finite] at hf; exact hf
-          rw [closed_append, closed_cons, render_closed x t ht hx hxf]; rfl
+          have hx : x.good c = true := by simp [DExpr.good, DList.good] at hg; exact hg
+          have hxf : x.finite c = true := by simp [DExpr.finite, DList.finite] at hf; exact hf
+          rw [closed_append, closed_cons, render_closed c x t ht hx hxf]; rfl
         | cons y r' =>
           simp only [render, Option.map_eq_some_iff] at h
           obtain ⟨t, ht, rfl⟩ := h
-          rw [closed_append, closed_cons, renderList_closed (.cons x (.cons y r')) t ht
+          rw [closed_append, closed_cons, renderList_closed c (.cons x (.cons y r')) t ht
             (by simpa [DExpr.good] using hg) (by simpa [DExpr.finite] using hf)]; rfl
   | .list xs, toks, h, hg, hf => by
       cases xs with
@@ -155,7 +202,7 @@ theorem render_closed : ∀ (e : DExpr) (toks : List DTok), render e = some toks
       | cons x r =>
         simp only [render, Option.map_eq_some_iff] at h
         obtain ⟨t, ht, rfl⟩ := h
-        rw [closed_append, closed_cons, renderList_closed (.cons x r) t ht
+        rw [closed_append, closed_cons, renderList_closed c (.cons x r) t ht
           (by simpa [DExpr.good] using hg) (by simpa [DExpr.finite] using hf)]; rfl
   | .set xs, toks, h, hg, hf => by
       cases xs with
@@ -163,7 +210,7 @@ theorem render_closed : ∀ (e : DExpr) (toks : List DTok), render e = some toks
       | cons x r =>
         simp only [render, Option.map_eq_some_iff] at h
         obtain ⟨t, ht, rfl⟩ := h
-        rw [closed_append, closed_cons, renderList_closed (.cons x r) t ht
+        rw [closed_append, closed_cons, renderList_closed c (.cons x r) t ht
           (by simpa [DExpr.good] using hg) (by simpa [DExpr.finite] using hf)]; rfl
   | .dict kvs, toks, h, hg, hf => by
       cases kvs with
@@ -171,27 +218,27 @@ theorem render_closed : ∀ (e : DExpr) (toks : List DTok), render e = some toks
       | cons k v r =>
         simp only [render, Option.map_eq_some_iff] at h
         obtain ⟨t, ht, rfl⟩ := h
-        rw [closed_append, closed_cons, renderPairs_closed (.cons k v r) t ht
+        rw [closed_append, closed_cons, renderPairs_closed c (.cons k v r) t ht
           (by simpa [DExpr.good] using hg) (by simpa [DExpr.finite] using hf)]; rfl
       | spread v r => simp [render, renderPairs] at h
   | .other, _, h, _, _ => by simp [render] at h
-theorem renderList_closed : ∀ (xs : DList) (toks : List DTok), renderList xs = some toks →
-    xs.good = true → xs.finite = true → Closed toks = true
+theorem renderList_closed (c : DCfg) : ∀ (xs : DList) (toks : List DTok), renderList c xs = some toks →
+    xs.good c = true → xs.finite c = true → Closed toks = true
   | .nil, toks, h, _, _ => by simp [renderList] at h; subst h; rfl
   | .cons x .nil, toks, h, hg, hf => by
       simp only [renderList] at h
-      have hx : x.good = true := by simp [DList.good] at hg; exact hg
-      have hxf : x.finite = true := by simp [DList.finite] at hf; exact hf
-      exact render_closed x toks h hx hxf
+      have hx : x.good c = true := by simp [DList.good] at hg; exact hg
+      have hxf : x.finite c = true := by simp [DList.finite] at hf; exact hf
+      exact render_closed c x toks h hx hxf
   | .cons x (.cons y r), toks, h, hg, hf => by
       simp only [renderList, Option.bind_eq_some_iff, Option.map_eq_some_iff] at h
       obtain ⟨t, ht, ts, hts, rfl⟩ := h
       simp only [DList.good, Bool.and_eq_true] at hg
       simp only [DList.finite, Bool.and_eq_true] at hf
-      rw [closed_append, closed_cons, render_closed x t ht hg.1 hf.1,
-        renderList_closed (.cons y r) ts hts (by simp [DList.good, hg.2]) (by simp [DList.finite, hf.2])]; rfl
-theorem renderPairs_closed : ∀ (kvs : DPairs) (toks : List DTok), renderPairs kvs = some toks →
-    kvs.good = true → kvs.finite = true → Closed toks = true
+      rw [closed_append, closed_cons, render_closed c x t ht hg.1 hf.1,
+        renderList_closed c (.cons y r) ts hts (by simp [DList.good, hg.2]) (by simp [DList.finite, hf.2])]; rfl
+theorem renderPairs_closed (c : DCfg) : ∀ (kvs : DPairs) (toks : List DTok), renderPairs c kvs = some toks →
+    kvs.good c = true → kvs.finite c = true → Closed toks = true
   | .nil, toks, h, _, _ => by simp [renderPairs] at h; subst h; rfl
   | .spread _ _, _, h, _, _ => by simp [renderPairs] at h
   | .cons k v .nil, toks, h, hg, hf => by
@@ -199,15 +246,15 @@ theorem renderPairs_closed : ∀ (kvs : DPairs) (toks : List DTok), renderPairs 
       obtain ⟨tk, htk, tv, htv, rfl⟩ := h
       simp only [DPairs.good, Bool.and_eq_true] at hg
       simp only [DPairs.finite, Bool.and_eq_true] at hf
-      rw [closed_append, closed_cons, render_closed k tk htk hg.1.1 hf.1.1, render_closed v tv htv hg.1.2 hf.1.2]; rfl
+      rw [closed_append, closed_cons, render_closed c k tk htk hg.1.1 hf.1.1, render_closed c v tv htv hg.1.2 hf.1.2]; rfl
   | .cons k v (.cons k2 v2 r), toks, h, hg, hf => by
       simp only [renderPairs, Option.bind_eq_some_iff, Option.map_eq_some_iff] at h
       obtain ⟨tk, htk, tv, htv, ts, hts, rfl⟩ := h
       simp only [DPairs.good, Bool.and_eq_true] at hg
       simp only [DPairs.finite, Bool.and_eq_true] at hf
-      rw [closed_append, closed_cons, closed_append, closed_cons, render_closed k tk htk hg.1.1 hf.1.1,
-        render_closed v tv htv hg.1.2 hf.1.2,
-        renderPairs_closed (.cons k2 v2 r) ts hts (by simp [DPairs.good, hg.2]) (by simp [DPairs.finite, hf.2])]; rfl
+      rw [closed_append, closed_cons, closed_append, closed_cons, render_closed c k tk htk hg.1.1 hf.1.1,
+        render_closed c v tv htv hg.1.2 hf.1.2,
+        renderPairs_closed c (.cons k2 v2 r) ts hts (by simp [DPairs.good, hg.2]) (by simp [DPairs.finite, hf.2])]; rfl
   | .cons k v (.spread v2 r), toks, h, _, _ => by
       simp [renderPairs] at h
 end
@@ -219,28 +266,27 @@ theorem lexOk_cons (t : DTok) (a : List DTok) : LexOk (t :: a) = (LexOk [t] && L
   simp [LexOk]
 
 mutual
-theorem render_lexOk : ∀ (e : DExpr) (toks : List DTok), render e = some toks → e.good = true →
+theorem render_lexOk (c : DCfg) : ∀ (e : DExpr) (toks : List DTok), render c e = some toks → e.good c = true →
     LexOk toks = true
-  | .const c, toks, h, _ => by simp [render] at h; subst h; rfl
+  | .const k0, toks, h, _ => by simp [render] at h; subst h; rfl
   | .name _, _, h, _ => by simp [render] at h
   | .int n, toks, h, _ => by simp [render] at h; subst h; rfl
   | .float t f, toks, h, _ => by
-      simp [render] at h; subst h; cases f <;> rfl
+      obtain ⟨_, rfl⟩ := render_float c t f toks h; cases f <;> rfl
   | .complex, _, h, _ => by simp [render] at h
   | .complexSum, _, h, _ => by simp [render] at h
   | .str i, toks, h, _ => by simp [render] at h; subst h; rfl
   | .bytes b, toks, h, hg => by
       simp [render] at h; subst h; simpa [LexOk, tokOk, DExpr.good] using hg
   | .unary o e, toks, h, hg => by
-      simp only [DExpr.good, Bool.and_eq_true, bne_iff_ne, ne_eq] at hg
-      have ho : o ≠ .not := hg.1
+      simp only [DExpr.good, Bool.and_eq_true] at hg
       cases e with
       | int n =>
         simp only [render, Option.some.injEq] at h; subst h
-        cases o <;> first | exact absurd rfl ho | rfl
+        exact unaryToks_lexOk c o _ _ hg.1
       | float t f =>
-        simp only [render, Option.some.injEq] at h; subst h
-        cases o <;> cases f <;> first | exact absurd rfl ho | rfl
+        obtain ⟨_, rfl⟩ := render_unary_float c o t f toks h
+        exact unaryToks_lexOk c o _ _ hg.1
       | _ => simp [render] at h
   | .tuple xs, toks, h, hg => by
       cases xs with
@@ -250,19 +296,19 @@ theorem render_lexOk : ∀ (e : DExpr) (toks : List DTok), render e = some toks 
         | nil =>
           simp only [render, Option.map_eq_some_iff] at h
           obtain ⟨t, ht, rfl⟩ := h
-          have hx : x.good = true := by simp [DExpr.good, DList.good] at hg; exact hg
-          rw [lexOk_append, lexOk_cons, render_lexOk x t ht hx]; rfl
+          have hx : x.good c = true := by simp [DExpr.good, DList.good] at hg; exact hg
+          rw [lexOk_append, lexOk_cons, render_lexOk c x t ht hx]; rfl
         | cons y r' =>
           simp only [render, Option.map_eq_some_iff] at h
           obtain ⟨t, ht, rfl⟩ := h
-          rw [lexOk_append, lexOk_cons, renderList_lexOk (.cons x (.cons y r')) t ht (by simpa [DExpr.good] using hg)]; rfl
+          rw [lexOk_append, lexOk_cons, renderList_lexOk c (.cons x (.cons y r')) t ht (by simpa [DExpr.good] using hg)]; rfl
   | .list xs, toks, h, hg => by
       cases xs with
       | nil => simp [render] at h; subst h; rfl
       | cons x r =>
         simp only [render, Option.map_eq_some_iff] at h
         obtain ⟨t, ht, rfl⟩ := h
-        rw [lexOk_append, lexOk_cons, renderList_lexOk (.cons x r) t ht
+        rw [lexOk_append, lexOk_cons, renderList_lexOk c (.cons x r) t ht
           (by simpa [DExpr.good] using hg)]; rfl
   | .set xs, toks, h, hg => by
       cases xs with
@@ -270,7 +316,7 @@ theorem render_lexOk : ∀ (e : DExpr) (toks : List DTok), render e = some toks 
       | cons x r =>
         simp only [render, Option.map_eq_some_iff] at h
         obtain ⟨t, ht, rfl⟩ := h
-        rw [lexOk_append, lexOk_cons, renderList_lexOk (.cons x r) t ht
+        rw [lexOk_append, lexOk_cons, renderList_lexOk c (.cons x r) t ht
           (by simpa [DExpr.good] using hg)]; rfl
   | .dict kvs, toks, h, hg => by
       cases kvs with
@@ -278,51 +324,51 @@ theorem render_lexOk : ∀ (e : DExpr) (toks : List DTok), render e = some toks 
       | cons k v r =>
         simp only [render, Option.map_eq_some_iff] at h
         obtain ⟨t, ht, rfl⟩ := h
-        rw [lexOk_append, lexOk_cons, renderPairs_lexOk (.cons k v r) t ht
+        rw [lexOk_append, lexOk_cons, renderPairs_lexOk c (.cons k v r) t ht
           (by simpa [DExpr.good] using hg)]; rfl
       | spread v r => simp [render, renderPairs] at h
   | .other, _, h, _ => by simp [render] at h
-theorem renderList_lexOk : ∀ (xs : DList) (toks : List DTok), renderList xs = some toks →
-    xs.good = true → LexOk toks = true
+theorem renderList_lexOk (c : DCfg) : ∀ (xs : DList) (toks : List DTok), renderList c xs = some toks →
+    xs.good c = true → LexOk toks = true
   | .nil, toks, h, _ => by simp [renderList] at h; subst h; rfl
   | .cons x .nil, toks, h, hg => by
       simp only [renderList] at h
-      have hx : x.good = true := by simp [DList.good] at hg; exact hg
-      exact render_lexOk x toks h hx
+      have hx : x.good c = true := by simp [DList.good] at hg; exact hg
+      exact render_lexOk c x toks h hx
   | .cons x (.cons y r), toks, h, hg => by
       simp only [renderList, Option.bind_eq_some_iff, Option.map_eq_some_iff] at h
       obtain ⟨t, ht, ts, hts, rfl⟩ := h
       simp only [DList.good, Bool.and_eq_true] at hg
-      rw [lexOk_append, lexOk_cons, render_lexOk x t ht hg.1,
-        renderList_lexOk (.cons y r) ts hts (by simp [DList.good, hg.2])]; rfl
-theorem renderPairs_lexOk : ∀ (kvs : DPairs) (toks : List DTok), renderPairs kvs = some toks →
-    kvs.good = true → LexOk toks = true
+      rw [lexOk_append, lexOk_cons, render_lexOk c x t ht hg.1,
+        renderList_lexOk c (.cons y r) ts hts (by simp [DList.good, hg.2])]; rfl
+theorem renderPairs_lexOk (c : DCfg) : ∀ (kvs : DPairs) (toks : List DTok), renderPairs c kvs = some toks →
+    kvs.good c = true → LexOk toks = true
   | .nil, toks, h, _ => by simp [renderPairs] at h; subst h; rfl
   | .spread _ _, _, h, _ => by simp [renderPairs] at h
   | .cons k v .nil, toks, h, hg => by
       simp only [renderPairs, Option.bind_eq_some_iff, Option.map_eq_some_iff] at h
       obtain ⟨tk, htk, tv, htv, rfl⟩ := h
       simp only [DPairs.good, Bool.and_eq_true] at hg
-      rw [lexOk_append, lexOk_cons, render_lexOk k tk htk hg.1.1, render_lexOk v tv htv hg.1.2]; rfl
+      rw [lexOk_append, lexOk_cons, render_lexOk c k tk htk hg.1.1, render_lexOk c v tv htv hg.1.2]; rfl
   | .cons k v (.cons k2 v2 r), toks, h, hg => by
       simp only [renderPairs, Option.bind_eq_some_iff, Option.map_eq_some_iff] at h
       obtain ⟨tk, htk, tv, htv, ts, hts, rfl⟩ := h
       simp only [DPairs.good, Bool.and_eq_true] at hg
-      rw [lexOk_append, lexOk_cons, lexOk_append, lexOk_cons, render_lexOk k tk htk hg.1.1,
-        render_lexOk v tv htv hg.1.2,
-        renderPairs_lexOk (.cons k2 v2 r) ts hts (by simp [DPairs.good, hg.2])]; rfl
+      rw [lexOk_append, lexOk_cons, lexOk_append, lexOk_cons, render_lexOk c k tk htk hg.1.1,
+        render_lexOk c v tv htv hg.1.2,
+        renderPairs_lexOk c (.cons k2 v2 r) ts hts (by simp [DPairs.good, hg.2])]; rfl
   | .cons k v (.spread v2 r), toks, h, _ => by
       simp [renderPairs] at h
 end
 
-theorem defaultToks_lexOk (sl : Nat → Nat) (e : DExpr) (hg : e.good = true) : LexOk (defaultToks sl e) = true := by
+theorem defaultToks_lexOk (c : DCfg) (sl : Nat → Nat) (e : DExpr) (hg : e.good c = true) : LexOk (defaultToks c sl e) = true := by
   unfold defaultToks
-  cases h : render e with
+  cases h : render c e with
   | none => rfl
   | some t =>
     simp only
     split
-    · exact render_lexOk e t h hg
+    · exact render_lexOk c e t h hg
     · rfl
 
 theorem raw_not_expr (t : String) : ¬ IsExpr [.raw t] := by
@@ -484,5 +530,108 @@ theorem unwrapNot_shape : ∀ (e : DExpr), (∃ o i, e = .unary o i) →
   | .set _, h => by obtain ⟨_, _, h⟩ := h; cases h
   | .dict _, h => by obtain ⟨_, _, h⟩ := h; cases h
   | .other, h => by obtain ⟨_, _, h⟩ := h; cases h
+
+
+/-! ### the repaired rules: every well-formed initializer is `good`, every float `finite` -/
+
+theorem scanLit_of_scanBody (q : Char) : ∀ (v : List Char), scanBody q v = true → scanLit q (v ++ [q]) = true
+  | [], _ => by simp [scanLit]
+  | [c], h => by
+      simp only [scanBody, Bool.and_eq_true, bne_iff_ne, ne_eq] at h
+      have h1 : (c == '\\') = false := by simp [h.1]
+      have h2 : (c == q) = false := by simp [h.2]
+      simp [scanLit, h1, h2]
+  | c :: d :: r, h => by
+      simp only [scanBody] at h
+      by_cases hc : (c == '\\') = true
+      · simp only [hc, ↓reduceIte] at h
+        have ih := scanLit_of_scanBody q r h
+        simp only [List.cons_append, scanLit, hc, ↓reduceIte]
+        exact ih
+      · have hc' : (c == '\\') = false := by simpa using hc
+        simp only [hc', Bool.false_eq_true, ↓reduceIte] at h
+        by_cases hq : (c == q) = true
+        · simp [hq] at h
+        · have hq' : (c == q) = false := by simpa using hq
+          simp only [hq', Bool.false_eq_true, ↓reduceIte] at h
+          have ih := scanLit_of_scanBody q (d :: r) h
+          simp only [List.cons_append] at ih
+          simp only [List.cons_append, scanLit, hc', hq', Bool.false_eq_true, ↓reduceIte]
+          exact ih
+
+theorem reprQuote_isQuote (b : List Char) : (reprQuote b == '\'' || reprQuote b == '"') = true := by
+  unfold reprQuote; split <;> decide
+
+theorem bytes_ok_repaired (c : DCfg) (hb : c.bytesQuote = true) (b : List Char)
+    (h : scanBody (reprQuote b) b = true) : lexOk (renderBytesC c b) = true := by
+  simp only [renderBytesC, hb, ↓reduceIte, List.cons_append, lexOk, reprQuote_isQuote, Bool.true_and]
+  exact scanLit_of_scanBody _ b h
+
+mutual
+theorem good_of_wf (c : DCfg) (hn : c.notSpaced = true) (hb : c.bytesQuote = true) :
+    ∀ (e : DExpr), e.wf = true → e.good c = true
+  | .bytes b, h => by simp only [DExpr.good]; exact bytes_ok_repaired c hb b (by simpa [DExpr.wf] using h)
+  | .unary o e, h => by
+      simp only [DExpr.good, hn, Bool.true_or, Bool.true_and]
+      exact good_of_wf c hn hb e (by simpa [DExpr.wf] using h)
+  | .tuple xs, h => by simp only [DExpr.good]; exact goodL_of_wf c hn hb xs (by simpa [DExpr.wf] using h)
+  | .list xs, h => by simp only [DExpr.good]; exact goodL_of_wf c hn hb xs (by simpa [DExpr.wf] using h)
+  | .set xs, h => by simp only [DExpr.good]; exact goodL_of_wf c hn hb xs (by simpa [DExpr.wf] using h)
+  | .dict kvs, h => by simp only [DExpr.good]; exact goodP_of_wf c hn hb kvs (by simpa [DExpr.wf] using h)
+  | .const _, _ => rfl
+  | .name _, _ => rfl
+  | .int _, _ => rfl
+  | .float _ _, _ => rfl
+  | .complex, _ => rfl
+  | .complexSum, _ => rfl
+  | .str _, _ => rfl
+  | .other, _ => rfl
+theorem goodL_of_wf (c : DCfg) (hn : c.notSpaced = true) (hb : c.bytesQuote = true) :
+    ∀ (xs : DList), xs.wf = true → xs.good c = true
+  | .nil, _ => rfl
+  | .cons x xs, h => by
+      simp only [DList.wf, Bool.and_eq_true] at h
+      simp only [DList.good, Bool.and_eq_true]
+      exact ⟨good_of_wf c hn hb x h.1, goodL_of_wf c hn hb xs h.2⟩
+theorem goodP_of_wf (c : DCfg) (hn : c.notSpaced = true) (hb : c.bytesQuote = true) :
+    ∀ (kvs : DPairs), kvs.wf = true → kvs.good c = true
+  | .nil, _ => rfl
+  | .cons k v rest, h => by
+      simp only [DPairs.wf, Bool.and_eq_true] at h
+      simp only [DPairs.good, Bool.and_eq_true]
+      exact ⟨⟨good_of_wf c hn hb k h.1.1, good_of_wf c hn hb v h.1.2⟩, goodP_of_wf c hn hb rest h.2⟩
+  | .spread v rest, h => by
+      simp only [DPairs.wf, Bool.and_eq_true] at h
+      simp only [DPairs.good, Bool.and_eq_true]
+      exact ⟨good_of_wf c hn hb v h.1, goodP_of_wf c hn hb rest h.2⟩
+end
+
+mutual
+theorem finite_repaired (c : DCfg) (hf : c.nonFiniteEllipsis = true) : ∀ (e : DExpr), e.finite c = true
+  | .float _ _ => by simp [DExpr.finite, hf]
+  | .unary _ e => by simp only [DExpr.finite]; exact finite_repaired c hf e
+  | .tuple xs => by simp only [DExpr.finite]; exact finiteL_repaired c hf xs
+  | .list xs => by simp only [DExpr.finite]; exact finiteL_repaired c hf xs
+  | .set xs => by simp only [DExpr.finite]; exact finiteL_repaired c hf xs
+  | .dict kvs => by simp only [DExpr.finite]; exact finiteP_repaired c hf kvs
+  | .const _ => rfl
+  | .name _ => rfl
+  | .int _ => rfl
+  | .complex => rfl
+  | .complexSum => rfl
+  | .str _ => rfl
+  | .bytes _ => rfl
+  | .other => rfl
+theorem finiteL_repaired (c : DCfg) (hf : c.nonFiniteEllipsis = true) : ∀ (xs : DList), xs.finite c = true
+  | .nil => rfl
+  | .cons x xs => by simp only [DList.finite, Bool.and_eq_true]; exact ⟨finite_repaired c hf x, finiteL_repaired c hf xs⟩
+theorem finiteP_repaired (c : DCfg) (hf : c.nonFiniteEllipsis = true) : ∀ (kvs : DPairs), kvs.finite c = true
+  | .nil => rfl
+  | .cons k v rest => by
+      simp only [DPairs.finite, Bool.and_eq_true]
+      exact ⟨⟨finite_repaired c hf k, finite_repaired c hf v⟩, finiteP_repaired c hf rest⟩
+  | .spread v rest => by
+      simp only [DPairs.finite, Bool.and_eq_true]; exact ⟨finite_repaired c hf v, finiteP_repaired c hf rest⟩
+end
 
 end StubDefault
